@@ -8,6 +8,7 @@ import (
 	"fmt"
 	"net/http"
 	"reflect"
+	"regexp"
 	"strconv"
 	"strings"
 	"testing"
@@ -42,12 +43,17 @@ type QReq struct {
 	P  string      `json:"p"`
 	H  [][2]string `json:"h,omitempty"`
 	NH bool        `json:"nil_header,omitempty"`
+	// EH are header names present with an empty list of values (what
+	// in-place filtering of an http.Header leaves behind).
+	EH []string `json:"empty_value_headers,omitempty"`
 }
 
 type Case struct {
 	Regs         []rt.Reg `json:"routes"`
 	UserNotFound bool     `json:"user_not_found"`
-	Reqs         []QReq   `json:"requests"`
+	// EmptyNotFound: NotFound() was called with no handlers at all.
+	EmptyNotFound bool   `json:"empty_not_found,omitempty"`
+	Reqs          []QReq `json:"requests"`
 }
 
 func unq(s string) string {
@@ -76,7 +82,13 @@ func trivialPath(p string) bool {
 
 func checkCase(c Case) (out evid.Outcome) {
 	out.Sub = len(c.Reqs)
-	app, _, perr := rt.NewAppOpt(c.Regs, c.UserNotFound)
+	mode := "default"
+	if c.EmptyNotFound {
+		mode = "empty"
+	} else if c.UserNotFound {
+		mode = "user"
+	}
+	app, _, perr := rt.NewAppMode(c.Regs, mode)
 	if perr != nil {
 		out.Excluded = 1
 		out.Classes = append(out.Classes, "registration-rejected")
@@ -86,9 +98,23 @@ func checkCase(c Case) (out evid.Outcome) {
 	for _, qr := range c.Reqs {
 		m, p := unq(qr.M), unq(qr.P)
 		q := rt.Req{M: m, P: p, H: qr.H}
-		serve := func() rt.Hit {
+		serve := func() (h rt.Hit) {
+			defer func() {
+				// with NotFound() nothing marks the not-found chain: it consists of
+				// the application middleware only, which the chain counter saw
+				if mode == "empty" && h.Handler < 0 && h.Panic == nil {
+					h.NotFound = true
+				}
+			}()
 			if qr.NH {
 				return app.ServeRaw(rt.NewRequestNilHeader(m, p))
+			}
+			if len(qr.EH) > 0 {
+				h := q.Header()
+				for _, name := range qr.EH {
+					h[name] = []string{}
+				}
+				return app.ServeRaw(rt.NewRequest(m, p, h))
 			}
 			return app.Serve(q)
 		}
@@ -139,9 +165,18 @@ func checkCase(c Case) (out evid.Outcome) {
 		routes, ok := compiled[m]
 		if !ok {
 			routes = rt.Compiled(c.Regs, m)
+			for i := range routes {
+				if hs := c.Regs[routes[i].Index].H; len(hs) > 0 {
+					routes[i].Headers = map[string]*regexp.Regexp{}
+					for j := 1; j < len(hs); j += 2 {
+						routes[i].Headers[hs[j-1]] = regexp.MustCompile(hs[j])
+					}
+				}
+			}
 			compiled[m] = routes
 		}
-		want := model.Match(routes, p, nil, nil)
+		hdr := q.Header()
+		want := model.Match(routes, p, hdr, nil)
 		wi := -1
 		if want.Found {
 			wi = want.Route.Index
@@ -230,6 +265,13 @@ func genCase(t *rapid.T) Case {
 		c.Regs, _ = gen.RouteSet(t, gen.SetOpts{Methods: ms, MaxRoutes: 6})
 	}
 	c.UserNotFound = rapid.Bool().Draw(t, "unf")
+	c.EmptyNotFound = rapid.IntRange(0, 5).Draw(t, "enf") == 0
+	// some routes are header-constrained
+	for i := range c.Regs {
+		if rapid.IntRange(0, 3).Draw(t, "constrained") == 0 {
+			c.Regs[i].H = []string{[]string{"X-Api", "x-api", "Accept"}[rapid.IntRange(0, 2).Draw(t, "hn")], []string{"", "^v1$", "[0-9]+"}[rapid.IntRange(0, 2).Draw(t, "he")]}
+		}
+	}
 	n := rapid.IntRange(1, 8).Draw(t, "nreqs")
 	for i := 0; i < n; i++ {
 		m := "GET"
@@ -247,6 +289,10 @@ func genCase(t *rapid.T) Case {
 			q.H = [][2]string{{"X-Real-IP", "\x00"}, {"", ""}, {"Accept", strings.Repeat("a", 100)}}
 		case 2:
 			q.H = [][2]string{{"Content-Length", "-1"}, {"Host", "\xff"}}
+		case 3:
+			q.H = [][2]string{{"X-Api", []string{"v1", "", "7", "v2"}[rapid.IntRange(0, 3).Draw(t, "xv")]}}
+		case 4:
+			q.EH = []string{"X-Api", "Accept"}
 		}
 		c.Reqs = append(c.Reqs, q)
 	}
